@@ -1219,6 +1219,34 @@ def compact_family(rep, prefix, tcfg, what):
     quick = rep.tier == "quick"
     if quick:
         hists = [h for h in hists if (vlib.stable_hash(json.dumps(h)) + rep.seed) % 3 == 0]
+    # MANY same-typed composite children: the parent spans several data slabs, so that non-root, non-last data slabs (which carry a
+    # sibling link after the shared inlined-extra-data section) hold compact maps; commit, reload, mutate one child, commit, reload
+    for parent in ("A", "M"):
+        for n in (10, 14):
+            for nk in (1, 2):
+                h = [["root", 1, "A"]]
+                p, nxt = 1, 2
+                ids = iter(range(1, 10000))
+                if parent == "M":
+                    h.append(["n.appc", 1, nxt, "M", 0]); p = nxt; nxt += 1
+                kids = []
+                for c in range(n):
+                    if parent == "A":
+                        h.append(["n.appc", p, nxt, "C", 0])
+                    else:
+                        h.append(["n.msetc", p, c + 1, 5, nxt, "C", 0])
+                    kids.append(nxt); nxt += 1
+                for c in kids:
+                    for k in range(1, nk + 1):
+                        h.append(["n.mset", c, k, 5, next(ids), 40, 0, False, 0])
+                h += [["commit", "det", 2, 0], ["crash"]]
+                if parent == "M":
+                    h.append(["n.get", 1, 0, p])
+                v = kids[n // 2]
+                h.append(["n.get", p, n // 2, v] if parent == "A" else ["n.mget", p, n // 2 + 1, 5, v])
+                h.append(["n.mset", v, 1, 5, next(ids), 12, 0, False, 0])
+                h += [["commit", "nondet", 2, 0], ["crash"]]
+                hists.append(h)
     files = [os.path.join(vlib.scratch(), "%s-fam-h-%d.ndjson" % (prefix, k)) for k in range(PARTS)]
     fh = [open(f, "w") for f in files]
     for f in fh:
@@ -1905,6 +1933,7 @@ def check_C03(rep):
     nested_bfs_stage(rep, "c03", "NestedTrace_C03.cfg", what, only=("p",))
     nested_stage(rep, "c03", "NestedTrace_C03.cfg", what, 256, "{12, 60, 110}", 60 if quick else 800, 100 if quick else 200, 6, 6)
     nested_stage(rep, "c03-collide", "NestedTrace_C03.cfg", what, 256, "{12, 40}", 40 if quick else 600, 120 if quick else 250, 8, 6, nkeys=6, kinds='{"M", "A"}', mask=1)
+    compact_family(rep, "c03", "NestedTrace_C03.cfg", what)
 
 
 def check_C07(rep):
